@@ -1,8 +1,8 @@
 SPECIFICATION Spec
 CONSTANTS
   Callers = {1, 2, 3, 4}
-  MaxStreams = 5
-  MaxDisconnects = 2
+  MaxStreams = 4
+  MaxDisconnects = 1
   BugReuseAfterTimeout = FALSE
   BugNoLock = FALSE
   BugReuseAfterCancel = FALSE
